@@ -156,7 +156,7 @@ NOTES.update({
     "C04_x": "NOT detected - outside the specification's state space (an agent resident in two environments at once: `World.tla` keeps an agent in at most one environment, cf. observation O1)",
     "C05_w": "the other model was only stepped between this model's timesteps: scripts step it from inside a timestep, before they change the system set",
     "C05_x": "as C05_w",
-    "C06_x": "a completing system only ended its own model: it ends the other model of the program right afterwards",
+    "C06_x": "a completing system only ended its own model: it ends the other model of the program right afterwards (first only in random histories, where the re-evaluation missed it; now every second program of the completion product lives beside a second model)",
     "C07_x": "NOT detected by C07 - it is C14's / C15's defect class (a ParameterList that keeps the caller's dictionary; C14's and C15's checks detect the same edit)",
     "C08_w": "C08's histories had one world: two worlds alive at once whose agents carry the same ids",
     "C11_x": "module-level generators never looked at the world's table: `colcount` (position code + number of columns the table has)",
@@ -164,9 +164,17 @@ NOTES.update({
     "C13_x": "component class names were unique: a second, unrelated component class that is also named `A`",
     "C15_w": "one empty-built list per (isolated) program: a second list is created empty and filled with something else first",
     "C15_x": "selections were fresh objects: the batches of one program pass the same list object, edited in place in between",
+    "C16_x": "detection depended on which object re-used an address (detected by the first version, missed by the re-evaluation): tuning-loop programs now write a fresh dict grid per search right after the previous one is gone",
     "C16_w": "grid_search was given dictionaries or dictionary-built lists: two lists created empty in one program and filled differently",
     "C18_x": "model parameters were always all declared: a parameter at its default is left out of every other description",
     "C20_x": "instance components were always new objects: now and then the very object that is a class component somewhere is given to an instance",
+    # round 13
+    "C01_z": "collectors among the scheduled systems were built with keyword arguments: a file collector that forwards (priority, frequency, start, end) by position, as ECAgent's own collectors do (scheduler driver serial 4; collectors driver LineFile) - now C01 and C17 both detect it",
+    "C03_z": "agents always left through remove_agent: every fifth departure uses the deprecated, still public spelling removeAgent",
+    "C07_z": "the fixture models passed their seed by keyword: half of them pass it by position, as the repository's own example models do",
+    "C15_y": "every call spelled out processes= and repetitions=: arguments at their documented defaults are left out of every other call (batch_run and grid_search)",
+    "C15_z": "NOT detected by C15 - it is C07's defect class (a framework draw taken from the global generator); C07's check detects the same edit",
+    "C20_y": "has_class_component / has_component were only asked about one type: every observation asks templates of 0, 2 and 3 types (specification: conjunction over the listed types)",
 })
 ROUNDS = "abcdefghijklmnopqrstuvwxyz"
 
@@ -204,9 +212,9 @@ def main():
         firsts[rnd] = firsts.get(rnd, 0) + (1 if missed else 0)
     head = ("\n### 11.5 Independently seeded changes (`/verif/seeded/<id>/`)\n\n"
             f"{total} changes were produced in {max(firsts)} rounds by fresh sub-agents that saw only the text of one property and a scratch worktree "
-            "(two per property and round; ids `_a`,`_b` = round 1, `_c`,`_d` = round 2, `_e`,`_f` = round 3, `_g`,`_h` = round 4, `_i`,`_j` = round 5, `_k`,`_l` = round 6, `_m`,`_n` = round 7, `_o`,`_p` = round 8, `_q`,`_r` = round 9, `_s`,`_t` = round 10, `_u`,`_v` = round 11, `_w`,`_x` = round 12; the agents of later rounds were told "
+            "(two per property and round; ids `_a`,`_b` = round 1, `_c`,`_d` = round 2, `_e`,`_f` = round 3, `_g`,`_h` = round 4, `_i`,`_j` = round 5, `_k`,`_l` = round 6, `_m`,`_n` = round 7, `_o`,`_p` = round 8, `_q`,`_r` = round 9, `_s`,`_t` = round 10, `_u`,`_v` = round 11, `_w`,`_x` = round 12, `_y`,`_z` = round 13; the agents of later rounds were told "
             "what the earlier rounds had produced and asked for something different; round 4 was asked to stay strictly inside the quantifier text, "
-            "round 5 to look for the least obvious failure, round 6 to prefer code no earlier change had touched, round 7 to look for interactions of two features and boundary values, round 8 to write refactorings and small features that drop something the old code did implicitly, round 9 to start from a realistic user model, round 10 to look at life cycles, rejected operations, returned objects and defaults, round 11 to write performance optimisations, round 12 to look for cross-talk between objects that should be independent). Each passes the 110 tests, and its demonstration fails with the change and passes without it "
+            "round 5 to look for the least obvious failure, round 6 to prefer code no earlier change had touched, round 7 to look for interactions of two features and boundary values, round 8 to write refactorings and small features that drop something the old code did implicitly, round 9 to start from a realistic user model, round 10 to look at life cycles, rejected operations, returned objects and defaults, round 11 to write performance optimisations, round 12 to look for cross-talk between objects that should be independent, round 13 to write MINIMAL mutations: one token or one short expression, as a mutation-testing tool would). Each passes the 110 tests, and its demonstration fails with the change and passes without it "
             "(re-confirmed by `tools/seedcheck.py import`). `tools/seedcheck.py run` applies a patch to `/repo`, runs the property's quick check "
             "and undoes it (`git checkout -- .`); `run --scratch` does the same on a scratch copy (`VERIF_REPO`) so that runs can go in parallel. "
             f"**{own} of the {total} are detected by the quick check of their own property** (`result_quick.json`, current checks), {other} by the check of the "
